@@ -128,6 +128,4 @@ def _calculate_coherent_artifact_matrix_on_index(matrix, center, width, axis, or
         matrix[:, 1] = matrix[:, 0] * (center - axis) / width**2
 
     if order > 2:
-        matrix[:, 2] = (
-            matrix[:, 0] * (center**2 - width**2 - 2 * center * axis + axis**2) / width**4
-        )
+        matrix[:, 2] = matrix[:, 0] * ((axis - center) ** 2 - width**2) / width**4
